@@ -7,6 +7,8 @@ import (
 	"fmt"
 	"io"
 	"reflect"
+	"runtime"
+	"sync"
 	"testing"
 	"time"
 
@@ -352,7 +354,13 @@ func TestC20(t *testing.T) {
 				rep.Eval(1)
 				rep.Count("write_fault_positions", 1)
 				fw := &recWriter{failAt: k, err: errors.New("disk full"), failMode: k % 3}
-				w2 := &tlog.Writer{ByteWriter: fw, DialectRW: g.drw()}
+				var bw io.Writer = fw
+				if k%2 == 0 {
+					// a staged writer with a Flush method of its own whose write error is not sticky (Flush succeeds afterwards)
+					bw = &flushingWriter{recWriter: fw}
+					rep.Count("write_faults_on_writers_with_flush_method", 1)
+				}
+				w2 := &tlog.Writer{ByteWriter: bw, DialectRW: g.drw()}
 				_ = w2.Initialize()
 				reported := false
 				failedIdx := -1
@@ -443,8 +451,81 @@ func TestC20(t *testing.T) {
 			}
 		}
 	}
+	// (6) several logs written at the same time by goroutines of their own (one Writer each, slow underlying writers),
+	// unencodable entries mixed in: every log is exactly the image of its own accepted entries
+	{
+		const G = 6
+		type res struct {
+			got, want []byte
+		}
+		out := make([]res, G)
+		var wg sync.WaitGroup
+		for gi := 0; gi < G; gi++ {
+			wg.Add(1)
+			g := &c20gen{r: vh.Sub(seed, fmt.Sprintf("c20-conc-%d", gi)), glist: glist, other: other, genv: genv}
+			var entries []*c20entry
+			for i := 0; i < vh.Pick(150, 1500); i++ {
+				entries = append(entries, g.entry(i%7 == 3))
+			}
+			go func(gi int) {
+				defer wg.Done()
+				defer func() {
+					if p := recover(); p != nil {
+						rep.Violation("what=panic", fmt.Sprintf("tlog.Writer panicked while other writers were in use: %v", p), nil)
+					}
+				}()
+				sw := &slowWriter{}
+				w := &tlog.Writer{ByteWriter: sw, DialectRW: genv.drw}
+				if err := w.Initialize(); err != nil {
+					return
+				}
+				for _, e := range entries {
+					err := w.Write(&tlog.Entry{Time: e.t, Frame: e.frame()})
+					if e.bad == "" && err == nil {
+						out[gi].want = append(out[gi].want, e.image...)
+					}
+				}
+				out[gi].got = sw.buf
+			}(gi)
+		}
+		wg.Wait()
+		for gi := range out {
+			rep.Eval(1)
+			rep.Count("concurrently_written_logs", 1)
+			rep.Distinct("conc", gi, out[gi].want)
+			if !bytes.Equal(out[gi].got, out[gi].want) {
+				rep.Violation("what=image", "a log written while other tlog.Writers were in use (after unencodable entries) differs from the image of its own entries",
+					map[string]interface{}{"log": gi, "got_len": len(out[gi].got), "want_len": len(out[gi].want)})
+			}
+		}
+	}
 	_ = io.EOF
 	rep.Floor("cut_offsets", 5000)
 	rep.Floor("logs_longer_than_4096_bytes", 3)
 	rep.Floor("unencodable_entries", 50)
+}
+
+// flushingWriter is a recWriter with a Flush method (a staged / rotating file): Flush always succeeds.
+type flushingWriter struct {
+	*recWriter
+	flushes int
+}
+
+func (f *flushingWriter) Flush() error { f.flushes++; return nil }
+
+// slowWriter takes its time inside Write and only then looks at the bytes it was handed.
+type slowWriter struct {
+	buf []byte
+	n   int
+}
+
+func (s *slowWriter) Write(p []byte) (int, error) {
+	s.n++
+	if s.n%3 == 0 {
+		time.Sleep(20 * time.Microsecond)
+	} else {
+		runtime.Gosched()
+	}
+	s.buf = append(s.buf, p...)
+	return len(p), nil
 }
